@@ -38,6 +38,16 @@ def cmd_branches(prog, f, cmd):
     return g, out
 
 
+def cmd_var(f):
+    """name bound to msg['cmd'] / msg.get('cmd')"""
+    for n in walk(f.node):
+        if isinstance(n, ast.Assign) and isinstance(n.targets[0], ast.Name):
+            s = unparse(n.value)
+            if s in ("msg['cmd']", "msg.get('cmd')"):
+                return n.targets[0].id
+    return 'cmd'
+
+
 def arg_var(f):
     """name bound to msg['arg'] / msg.get('arg')"""
     for n in walk(f.node):
@@ -430,7 +440,7 @@ def handlers(prog):
                 if n.kind == 'test' and isinstance(n.ast, ast.Compare) and \
                         len(n.ast.ops) == 1 and \
                         isinstance(n.ast.ops[0], ast.Eq) and \
-                        unparse(n.ast.left) == 'cmd' and \
+                        unparse(n.ast.left) == cmd_var(f) and \
                         isinstance(n.ast.comparators[0], ast.Constant):
                     cmd = n.ast.comparators[0].value
                     t = [e.dst for e in g.succ[n.id] if e.label == 'T']
